@@ -156,6 +156,41 @@ func (c *Check) Finish(tier string, seed int64, evidencePath string, ff *Finding
 	var lines []string
 	discharged := 0
 	nontrivial := map[string]bool{}
+	// A listed finding whose site was renamed or moved into a helper: the listed key no longer names any
+	// obligation of this run (it is neither discharged nor violated — the construct is gone), and a
+	// violation of the same rule and construct kind appears at a site that is not listed. Such a violation
+	// is the listed finding at its new site, one for one; any violation beyond the number of displaced
+	// entries of that kind is reported as new.
+	present := map[string]bool{}
+	for _, o := range c.Obls {
+		present[o.Key] = true
+	}
+	displaced := map[string][]Finding{}
+	var knownKeys []string
+	for k := range known {
+		knownKeys = append(knownKeys, k)
+	}
+	sort.Strings(knownKeys)
+	for _, k := range knownKeys {
+		if !present[k] {
+			displaced[keyKind(k)] = append(displaced[keyKind(k)], known[k])
+		}
+	}
+	moved := map[*Obligation]Finding{}
+	var unlisted []*Obligation
+	for _, o := range c.Obls {
+		if _, ok := known[o.Key]; o.Status == Violated && !ok {
+			unlisted = append(unlisted, o)
+		}
+	}
+	sort.Slice(unlisted, func(i, j int) bool { return unlisted[i].Key < unlisted[j].Key })
+	for _, o := range unlisted {
+		kind := keyKind(o.Key)
+		if d := displaced[kind]; len(d) > 0 {
+			moved[o] = d[0]
+			displaced[kind] = d[1:]
+		}
+	}
 	for _, o := range c.Obls {
 		switch o.Status {
 		case Discharged:
@@ -168,6 +203,11 @@ func (c *Check) Finish(tier string, seed int64, evidencePath string, ff *Finding
 				o.Known = true
 				res.Known++
 				lines = append(lines, fmt.Sprintf("KNOWN-FINDING: property=%s %s [%s at %s]", c.Property, clip(f.What, 400), o.Key, o.Pos))
+				nontrivial[o.Key] = true
+			} else if f, ok := moved[o]; ok {
+				o.Known = true
+				res.Known++
+				lines = append(lines, fmt.Sprintf("KNOWN-FINDING: property=%s %s [listed as %s, whose site no longer exists; same rule and construct now at %s, %s]", c.Property, clip(f.What, 400), f.Key, o.Key, o.Pos))
 				nontrivial[o.Key] = true
 			} else {
 				res.Violations++
@@ -244,6 +284,19 @@ func (c *Check) Finish(tier string, seed int64, evidencePath string, ff *Finding
 		return 1
 	}
 	return 0
+}
+
+// keyKind strips the site (function names) from an obligation key: rule/construct[/variant].
+func keyKind(key string) string {
+	segs := strings.Split(key, "/")
+	var out []string
+	for _, sg := range segs {
+		if strings.HasPrefix(sg, "(") || strings.Contains(sg, ".") {
+			break
+		}
+		out = append(out, sg)
+	}
+	return strings.Join(out, "/")
 }
 
 // FailIncomplete is used when the analysis itself could not run.
